@@ -25,6 +25,9 @@ type c12Scenario struct {
 	Rolling bool   `json:"rolling"`
 	Fin     bool   `json:"finalizeHook"`
 	GenSel  bool   `json:"generateSelector"`
+	// Deleting: the parent carries the finalizer and is pending deletion from the start: every hook
+	// call is a finalize call (answering step by step), every child write is part of finalization
+	Deleting bool `json:"parentPendingDeletion,omitempty"`
 }
 
 type c12Fault struct {
@@ -69,6 +72,14 @@ func (sc c12Scenario) build(caseID string) (*scenarioRun, *scenario) {
 	sim.SetLabels(orphan, r.matchingLabels())
 	st.MustCreate(sim.WidgetInfo.GVR(), orphan)
 	st.MustCreate(sim.ConfigMapInfo.GVR(), r.asCreatedByMC(s.Kids[3], "old"))
+	if sc.Deleting {
+		pgvr := s.parentInfo().GVR()
+		st.ExtMutate(pgvr, s.ns(), s.parentName(), func(o sim.Obj) {
+			sim.SetNested(o, []interface{}{"metacontroller.io/compositecontroller-" + uid}, "metadata", "finalizers")
+		})
+		st.ExtDelete(pgvr, s.ns(), s.parentName(), "")
+		r.parent = st.Peek(pgvr, s.ns(), s.parentName())
+	}
 	return r, s
 }
 
@@ -436,6 +447,7 @@ func TestVerif_C12_Faults(t *testing.T) {
 		{Name: "plain", GenSel: false},
 		{Name: "fin-gensel", Fin: true, GenSel: true},
 		{Name: "rolling", Rolling: true},
+		{Name: "finalizing", Fin: true, Deleting: true},
 	}
 	for _, sc := range scenarios {
 		sc := sc
